@@ -156,13 +156,16 @@ def c15(tier, seed):
                 uninit("C15", tier, "uninit_long_q", 2, 2, 2, scale=9), uninit("C15", tier, "uninit_long17_q", 2, 1, 2, scale=17),
                 # the deprecated Arc::write / as_mut_slice are uniqueness gates: their load is part of the extracted protocol
                 mm("C15", tier, "mm_deprecated_write_q", [("c15_2x3", ["clone", "read", "drop", "get_mut"], 2, 3, 2, False)]),
-                stage(CT.ctor_stage, "C15", tier, "release_q", ["release"], True, only_cats=["frees", "drops", "baddrop", "leak", "crash", "panicked"])] + swaps("C15", tier, seed, hows=("uninit",))
+                stage(CT.ctor_stage, "C15", tier, "release_q", ["release"], True, only_cats=["frees", "drops", "baddrop", "leak", "crash", "panicked"]),
+                # every payload shape through the uninit constructors: the block asked for is the block given back
+                lay("C15", tier, "layout_matrix_q")] + swaps("C15", tier, seed, hows=("uninit",))
     return [uninit("C15", tier, "uninit_t", 3, 2, 3), uninit("C15", tier, "uninit_t4", 4, 2, 2),
             uninit("C15", tier, "uninit_walks_t", 5, 4, 5, simulate=(10000, 60, seed)),
             uninit("C15", tier, "uninit_long_t", 3, 2, 2, scale=9), uninit("C15", tier, "uninit_long17_t", 2, 2, 3, scale=17),
             uninit("C15", tier, "uninit_long64_t", 2, 1, 2, scale=64),
             mm("C15", tier, "mm_deprecated_write_t", [("c15_2x4", ["clone", "read", "drop", "get_mut"], 2, 4, 2, False), ("c15_3x2", ["clone", "read", "drop", "get_mut"], 3, 2, 1, False)]),
-            stage(CT.ctor_stage, "C15", tier, "release_t", ["release"], True, only_cats=["frees", "drops", "baddrop", "leak", "crash", "panicked"])] + swaps("C15", tier, seed, hows=("uninit",))
+            stage(CT.ctor_stage, "C15", tier, "release_t", ["release"], True, only_cats=["frees", "drops", "baddrop", "leak", "crash", "panicked"]),
+            lay("C15", tier, "layout_matrix_t")] + swaps("C15", tier, seed, hows=("uninit",))
 
 
 def c06(tier, seed):
@@ -414,7 +417,7 @@ PROPS = {
     "C05": {"level": "model_checking", "stages": c05, "assumptions": LAYOUT_ASSUME + MM_ASSUME, "replay": any_replay},
     "C11": {"level": "model_checking", "stages": c11, "assumptions": LAYOUT_ASSUME + GRAPH_ASSUME + SWAP_ASSUME, "replay": any_replay},
     "C10": {"level": "model_checking", "stages": c10, "assumptions": GRAPH_ASSUME + LAYOUT_ASSUME + MM_ASSUME + SWAP_ASSUME, "replay": any_replay},
-    "C15": {"level": "model_checking", "stages": c15, "assumptions": GRAPH_ASSUME + MM_ASSUME + SWAP_ASSUME, "replay": any_replay},
+    "C15": {"level": "model_checking", "stages": c15, "assumptions": GRAPH_ASSUME + MM_ASSUME + LAYOUT_ASSUME + SWAP_ASSUME, "replay": any_replay},
     "C06": {"level": "model_checking", "stages": c06, "assumptions": GRAPH_ASSUME + ["Ctor.tla models each constructor as the sequence of calls, writes and checks the source performs; lengths beyond the fault bound are honest cases only"], "replay": any_replay},
     "C07": {"level": "fault_enumeration", "stages": c07, "assumptions": GRAPH_ASSUME + ["faults: panic at the k-th next / Clone / callback exit / comparison-hash-format impl, misreported len/size_hint within +-2 and changing between calls, failing allocation 1..3 (child processes); a leak is tolerated only where Ctor.tla leaks the half-built block"], "replay": any_replay},
     "C14": {"level": "model_checking", "stages": c14, "assumptions": ["the reference answers (what the values answer) are Compare.tla's ValEq / ValCmp: header, then slice lexicographically, then recorded length; the real value types' own impls are checked against that table, every handle kind against the values", "exhaustive over the small domain only (3 letters, slices up to the bound, recorded length equal or +1)"], "replay": any_replay},
